@@ -27,10 +27,17 @@ def W.write (w : W) (s : Str) : Option W :=
 def W.text (w : W) : Str := w.out.flatten
 
 structure Env where
-  /-- partial store as seen by `get`: absent name ⇒ error, `none` ⇒ stored parse error. -/
-  partials : List (Str × Option Tmpl) := []
+  /-- the partial store's `get`: the compiled partial, or an error (unknown name / parse error). -/
+  lookup : Str → Res Tmpl := fun _ => .err
   /-- positional-argument filters. -/
   filters : Str → Option (V → List V → Res V) := fun _ => none
+
+/-- a store given as a table: absent name ⇒ error, `none` ⇒ stored parse error -/
+def Env.ofList (ps : List (Str × Option Tmpl)) (filters : Str → Option (V → List V → Res V) := fun _ => none) : Env :=
+  { lookup := fun name => match ps.find? (·.1 == name) with
+      | some (_, some t) => .ok t
+      | _ => .err,
+    filters := filters }
 
 def toUsize (i : Int) : Nat := if i < 0 then (2^64 - i.natAbs) else i.toNat
 
@@ -248,11 +255,7 @@ def takeInterruptM : M (Option Intr) := do
   M.setRegs { g with interrupt := none }
   pure g.interrupt
 
-def lookupPartial (env : Env) (name : Str) : Res Tmpl :=
-  match env.partials.find? (·.1 == name) with
-  | some (_, some t) => .ok t
-  | some (_, none) => .err
-  | none => .err
+def lookupPartial (env : Env) (name : Str) : Res Tmpl := env.lookup name
 
 /-- the loop of `For::render_to` / `Render::render_to` (for form): `step v i` renders the body for
 element `v` at position `i` inside its own frames and returns the interrupt it consumed; a
